@@ -103,6 +103,8 @@ def run():
     rej = rejA + rejB
     from ..repo_traces import validate_recorded
     validate_recorded(rep, "C11", "tree")
+    from ..drivers.system import system_phase
+    system_phase(rep, "C11", "tree")
     details = find_steps(filesA + filesB, [r[1] for r in rej]) if rej else {}
     for r in rej:
         _, tid, clause, prop, ctx = r[:5]
